@@ -54,12 +54,28 @@ def env_base():
 #   timeout  : seconds for the whole job
 # --------------------------------------------------------------------------
 
-def J(test, checks=None, shards=1, race=False, env=None, procs=None, timeout=900, count=1, shrink="20s", steps=None):
+def J(test, checks=None, shards=1, race=False, env=None, procs=None, timeout=900, count=1, shrink="20s", steps=None, par=None):
+    # par: allowed number of concurrent processes for this property when its cases are mostly idle
+    # (real-time waits such as the library's 1 s watch retry delay)
     return dict(test=test, checks=checks, shards=shards, race=race, env=env or {}, procs=procs,
-                timeout=timeout, count=count, shrink=shrink, steps=steps)
+                timeout=timeout, count=count, shrink=shrink, steps=steps, par=par)
 
 
 PROPS = {
+    "C04": dict(
+        level="fault_enumeration",
+        rule="rapid histories against a real controller with refresh period 1 h (only the watch can deliver): 1-25 operations of server changes (4 keys), short pauses, and watch faults {server closes the stream (after a burst of 0-40 updates), frame without object, next Watch() calls fail, per-session plans of status / bookmark / unknown-type frames at generated positions} with a controller-level filter that sleeps 0-200us per event while the burst arrives (watcher buffer non-empty at the disconnect) and with or without waiting out the 1 s reconnect delay before continuing. Oracle: final double marker arrives through the watch; cache == server state; the subscriber's strict mirror == cache; exactly one List call; Watch() resourceVersions non-decreasing and each the list version or the version of an event sent on an earlier session. Non-trivial = >= 1 reconnect with >= 1 server change after it; distinct = hash of history.",
+        assumptions=["the library's watch retry delay is a 1 s constant (not hookable add-only): cases run in many parallel processes", "cases in which the harness itself overflowed the watcher buffer (logged by the library) are discarded and counted"],
+        quick=[J("TestC04_Reconnects", checks=4, shards=40, par=48, timeout=600, shrink="5s")],
+        thorough=[J("TestC04_Reconnects", checks=50, shards=64, par=64, env={"VERIF_C04_MAXFAULTS": "4"}, timeout=2400, shrink="5s")],
+    ),
+    "C03": dict(
+        level="fault_enumeration",
+        rule="rapid histories against a real controller with refresh period 1-5 ms and gated lists on the fake API server: per case 2-8 relists, each preceded by generated server changes (5 keys, labels moving objects across the controller filter) and overlapped by changes made while the list is in flight; the snapshot returned is the one taken at call or at release (generated); watch mode in {never connects, faithful, faulty: per-session generated plans of status / bookmark / unknown-type frames, dropped and duplicated events, stream closes, connect errors}; controller filter from a 6-element family. The Watch call at the list's resourceVersion is held by the fake until the cache has been inspected. Oracle: per key, cache value in Allowed(k) (see c03_test.go), cached objects satisfy the filter, the unfiltered subscriber's strict mirror converges to the cache while the Watch is held, and after the history stops one further relist yields exact equality with the server's accepted objects. Non-trivial = >= 3 completed relists, at least one changing the cache, and a fault / in-flight event / dead watch; distinct = hash of history.",
+        assumptions=["relist completion is observed without hooks as the Watch(resourceVersion = list RV) call that follows cache.sync and event distribution", "Allowed(k) is a superset of the reachable outcomes (dropped events are treated as deliverable): never a false alarm, may accept an outcome a stricter oracle would refuse"],
+        quick=[J("TestC03_Relists", checks=250, shards=8, procs=[2, 4, 8, 16])],
+        thorough=[J("TestC03_Relists", checks=8000, shards=16, procs=[1, 2, 4, 8, 16], timeout=2400)],
+    ),
     "C16": dict(
         level="exploration",
         rule="rapid cases: publisher kind {root, clone, filtered clone} x handler behaviour {fast, microsecond delay, slower than the producer, blocked on a harness channel then released} x Close moment {before the publisher is ready (first list gated), publisher shut down before ready, mid-stream, after the stream, never} x streams of 0-300 create/update/delete events in bursts between barriers; a recording handler logs every callback (kind, object, overlap counter, whether Done had been observed) and a witness subscription is created back-to-back with the monitor. Oracle: OnInitialize at most once, first, with the publisher's cache at readiness; callbacks == witness events one for one (type and object identity), a prefix when closed mid-stream, an in-order subsequence when the handler was blocked beyond the buffer; never overlapping; none after Done was observed; none at all when the publisher died before ready. Non-trivial = >= 20 callbacks of all three types with a slow/blocked handler or a mid-stream Close; distinct = hash of history.",
@@ -223,7 +239,7 @@ def run_jobs(prop, tier, jobs, seed, workdir, log):
             pending.append((ji, j, s))
     running = []
     results = []
-    maxpar = int(os.environ.get("VERIF_PAR", NCPU))
+    maxpar = int(os.environ.get("VERIF_PAR", max([NCPU] + [j["par"] for j in jobs if j.get("par")])))
 
     def launch(ji, j, s):
         cwd = os.path.join(workdir, f"job{ji}-shard{s}")
@@ -341,6 +357,8 @@ def classify(r):
                 return "infra", f"only {m[-1]} of {j['checks']} cases ran", None
         return "ok", "", None
     # failures
+    if "panic: test timed out" in text:
+        return "infra", "go test deadline reached (a wait in the harness was not bounded)", None
     m = REPLAY_RE.search(text)
     if m:
         return "violation", first_fail_line(text), m.group(2)
@@ -392,6 +410,9 @@ def first_panic_line(text):
     return "?"
 
 
+_trace_reruns = 0
+
+
 def write_crash_replay(prop, r, workdir):
     """A worker death leaves no rapid fail file: save the invocation (rapid
     cases are a pure function of the seed) plus the tail of the output, and
@@ -399,12 +420,16 @@ def write_crash_replay(prop, r, workdir):
     to the crash are part of the replay file."""
     os.makedirs(REPLAYS, exist_ok=True)
     history = []
+    global _trace_reruns
     try:
+        _trace_reruns += 1
+        if _trace_reruns > 1:
+            raise RuntimeError("trace re-run already done for another shard of this run")
         e = dict(r["env"])
         e["VERIF_TRACE"] = "1"
         e.pop("VERIF_STATS_DIR", None)
         rr = subprocess.run(r["args"], cwd=r["cwd"], env=e, stdout=subprocess.PIPE, stderr=subprocess.DEVNULL,
-                            text=True, errors="replace", timeout=min(300, r["job"]["timeout"]))
+                            text=True, errors="replace", timeout=min(120, r["job"]["timeout"]))
         history = [l for l in rr.stdout.splitlines() if l.startswith("TRACE ")][-80:]
     except Exception as ex:  # noqa
         history = [f"(trace re-run failed: {ex})"]
